@@ -4,8 +4,6 @@ extracting again is the identity on canonical event sequences, at any tempo.
 Melody / DrumTrack / ChordProgression / LeadSheet / PianorollSequence / Performance /
 MetricPerformance / NotePerformance.
 """
-import random
-
 from vt import coqgen as G
 from vt import fl
 
@@ -1029,15 +1027,23 @@ def corpus():
 
 
 META = {
-    'level_text': ('Machine-checked theorems (Coq): (1) step level, for ALL event lists satisfying the boolean '
-                   'predicate canonical_T and all parameters: extraction(render(es)) = es with the same start step '
-                   'and resolution, and every extractor output satisfies canonical_T; (2) float level (Flocq, '
-                   'binary64): quantize_to_step(step * seconds_per_step + start * seconds_per_step) = step + start '
-                   'for all steps up to 2^31, steps_per_quarter 1..96 / steps_per_second 1..1000 and every finite qpm '
-                   'in [10, 480], for the three seconds_per_step formulas of the code.  The models are tied to /repo '
-                   'by a differential run on generated canonical and edited sequences at non-trivial tempos.'),
-    'level_note': ('Trusted: Coq kernel (+ FloatAxioms / Reals axioms for the float theorem); hand-written models '
+    'level_text': ('Machine-checked theorems (Coq). Step level, closed under the global context, for ALL event lists and '
+                   'parameters, for each of the 8 event-sequence types: a boolean predicate canonical_T; canonical_T es '
+                   '=> extraction(render(es)) = es with the same start step, end step and resolution; every extractor '
+                   'output satisfies canonical_T (Performance also in the literal form: extraction output is a fixpoint '
+                   'of render-then-extract).  Float level (Flocq, full binary64, no fallback): quantize_to_step(step * '
+                   'seconds_per_step + start * seconds_per_step) = step + start for all steps up to 2^31, '
+                   'steps_per_quarter 1..96 / steps_per_second 1..1000, every finite qpm in [10, 480], for the three '
+                   'seconds_per_step formulas of the code; rendered times strictly increase with the step.  Composed: '
+                   'the notes re-quantized through the floats ARE the step-level notes, hence the round trip holds at any '
+                   'tempo in range.  Models tied to /repo by a differential run (real to_sequence at non-trivial tempos '
+                   '-> real quantizer -> real extractor vs the exact step-level model) and by a regenerated bit-exact '
+                   'sample table for the float model.'),
+    'level_note': ('Trusted: Coq kernel (+ FloatAxioms / Reals axioms for the float theorems); the hand-written models '
                    'coq/Model/Render*.v and the reused C07 extraction models / C01 quantizer model, tied by '
-                   'correspondence; extraction to OCaml.  The float model is tied by the regenerated sample table '
-                   '(not by per-case evaluation: PrimFloat does not extract).'),
+                   'correspondence; extraction to OCaml.  The float model is tied by the sample table regenerated from '
+                   'the real code on every run (PrimFloat does not extract, so the per-case model run is step level).  '
+                   'Models follow note_seq after notes/C06-fix-1.diff and notes/C06-fix-2.diff; on the code before '
+                   'them the theorems are refuted in Coq (C06_chords_legacy_refuted, C06_pianoroll_legacy_refuted) and '
+                   'the oracle reports the failing inputs.'),
 }
